@@ -450,6 +450,15 @@ def run(ctx, budget=1.0):
         else:
             res.traces_validated += 1
         check_state_to_graph(ctx, res, drv, st2, pending, "random-regauged")
+    # scale: the completeness theorem holds for every n; D51 lived beyond the sizes that used to be generated (>= 42 qubits).  Random states,
+    # dense generating sets of |0..0> (all the weight on the inverted block) and re-gauged graph states at 16..64 qubits.
+    for n in ((32,) if ctx.quick else (16, 24, 32, 40, 48, 56, 64)):
+        for _ in range(1 if ctx.quick else 3):
+            check_state_to_graph(ctx, res, drv, su.random_state(rng, n).to_stabilizer(), pending, "scale:random")
+            check_state_to_graph(ctx, res, drv, dense_zero_state(rng, n), pending, "scale:dense-zero")
+            adj = nx.to_numpy_array(nx.gnp_random_graph(n, rng.uniform(0.1, 0.6), seed=rng.getrandbits(30))).astype(int)
+            check_state_to_graph(ctx, res, drv, su.regauge_stab(graph_stab(adj), rng), pending, "scale:graph-state-regauged")
+        flush(res, drv, pending)
     # graph states in other gauges always convert (they are the states the solvers feed in)
     for _ in range(int((40 if ctx.quick else 400) * budget)):
         n = rng.randrange(2, 9)
